@@ -1,3 +1,146 @@
 import Anytree.Spec.Resolver
+import Anytree.Lemmas.Glob
+/-!
+# C08 — Resolver.glob returns exactly the nodes a wildcard pattern denotes
+-/
 namespace Anytree.Props.C08
+open Anytree Tree Str Resolver Spec
+variable {α : Type}
+
+/-! ## the matcher is the property's wildcard relation -/
+
+/-- the backtracking matcher standing for `re.match('(?ms)' + translate(pat) + '\\Z', name)` decides
+exactly: `*` any run of characters, `?` exactly one character, every other character — regex
+metacharacters included — only itself, the whole name anchored -/
+theorem match_iff_WMatch (ic : Bool) (pat name : List Char) :
+    matchToks ic (translate pat) name = true ↔ WMatch ic pat name :=
+  GlobL.match_iff_WMatch ic pat name
+
+/-! ## the compiled-pattern cache is unobservable -/
+
+/-- every cached entry is what compiling its key gives -/
+def CacheInv (k : Cache) : Prop := ∀ e ∈ k, e.2 = (translate e.1.1.toList, e.1.2)
+
+theorem cacheInv_nil : CacheInv [] := GlobL.cacheInv_nil
+
+/-- one lookup: same answer as without a cache, and the invariant is kept — whatever earlier calls
+(by resolvers with any `ignorecase`) left in the cache, including across an eviction -/
+theorem matchC_transparent (ic : Bool) (k : Cache) (name pat : String) (h : CacheInv k) :
+    (matchC ic k name pat).1 = matchPure ic name pat ∧ CacheInv (matchC ic k name pat).2 :=
+  GlobL.matchC_transparent ic k name pat h
+
+/-- the cache never grows beyond `_MAXCACHE` + 1 entries … -/
+theorem matchC_bounded (ic : Bool) (k : Cache) (name pat : String)
+    (h : k.length ≤ Generated.maxCache) : (matchC ic k name pat).2.length ≤ Generated.maxCache :=
+  GlobL.matchC_bounded ic k name pat h
+
+/-- `glob` with any well-formed cache state gives the result it gives with an empty cache, and leaves
+a well-formed cache: the result never depends on earlier calls -/
+theorem glob_cache_transparent (legacy : Bool) (c : Ctx α) (a : Addr) (path : String) (k : Cache)
+    (h : CacheInv k) :
+    (Resolver.glob legacy c a path k).1 = (Resolver.glob legacy c a path []).1 ∧
+    CacheInv (Resolver.glob legacy c a path k).2 := by
+  obtain ⟨h1, h2⟩ := GlobL.glob_spec legacy c a path k h
+  obtain ⟨h3, _⟩ := GlobL.glob_spec legacy c a path [] GlobL.cacheInv_nil
+  exact ⟨h1.trans h3.symm, h2⟩
+
+/-! ## relaxed mode: total, and exactly the denoted nodes -/
+
+theorem globRelaxed_eq_denote (c : Ctx α) (hr : c.relax = true) (parts : List String) (a : Addr)
+    (k : Cache) (h : CacheInv k) :
+    (globM false c parts a k).1 = .ok (denote c parts a) := by
+  rw [(GlobL.globM_spec false c parts a k h).1]
+  exact GlobL.globP_relaxed c hr parts a
+
+/-- needs a non-empty separator: with `sep = ""` every path "starts with" the separator but splits
+into a single component, and the mirror then reports the missing root component as an error even in
+relaxed mode (Python's `str.split('')` raises `ValueError`, so that case is outside the model) -/
+theorem globRelaxed_eq_spec (c : Ctx α) (hr : c.relax = true) (hsep : c.sep ≠ "") (a : Addr)
+    (path : String) :
+    (Resolver.glob false c a path []).1 = .ok (globS c a path) := by
+  rw [(GlobL.glob_spec false c a path [] GlobL.cacheInv_nil).1]
+  exact GlobL.globTopP_relaxed c hr hsep a path
+
+/-! ## strict mode: the same list, or a ResolverError at a genuine dead end -/
+
+/-- every literal (wildcard-free) component of `parts` names at most one child of any node -/
+def LiteralUnique (c : Ctx α) (parts : List String) : Prop :=
+  ∀ name ∈ parts, isWildcard name = false → ∀ b, (matching c b name).length ≤ 1
+
+/-- the components that follow the first wildcard (`*`, `?`, `**`) component -/
+abbrev afterWild : List String → List String := GlobL.afterWild
+
+theorem LiteralUnique.afterWild {c : Ctx α} {parts : List String} (h : LiteralUnique c parts) :
+    LiteralUnique c (afterWild parts) :=
+  fun name hn => h name (GlobL.afterWild_subset parts name hn)
+
+/-- pairwise different sibling names (under the resolver's comparison) make every literal component
+unambiguous -/
+theorem literalUnique_of_siblingUnique (c : Ctx α) (hsu : SiblingUnique c) (parts : List String) :
+    LiteralUnique c parts :=
+  fun name _ hw b => GlobL.literal_unique_of_siblingUnique c hsu name hw b
+
+/-- The statement needs an assumption: if a literal component matches two siblings and the remainder
+fails below one of them, `__find` re-raises and the results below the other sibling are lost; an
+enclosing wildcard or `**` component swallows that error, so the call succeeds with fewer nodes than
+denoted (root with children `a`(→`b`) and `a`(leaf), pattern `**/a/b` or, one level up, `*/a/b`:
+`glob` gives `[]`, the pattern denotes the node `b`).  It suffices that the literal components
+*behind the first wildcard component* are unambiguous; `LiteralUnique c parts` or `SiblingUnique c`
+imply that. -/
+theorem globStrict_ok_eq_denote (c : Ctx α) (hr : c.relax = false) (parts : List String)
+    (hu : LiteralUnique c (afterWild parts)) (a : Addr)
+    (k : Cache) (h : CacheInv k) (l : List Addr) (hok : (globM false c parts a k).1 = .ok l) :
+    l = denote c parts a := by
+  rw [(GlobL.globM_spec false c parts a k h).1] at hok
+  exact GlobL.globP_strict_ok c hr parts hu a l hok
+
+theorem globStrict_ok_eq_denote_of_siblingUnique (c : Ctx α) (hr : c.relax = false)
+    (hsu : SiblingUnique c) (parts : List String) (a : Addr)
+    (k : Cache) (h : CacheInv k) (l : List Addr) (hok : (globM false c parts a k).1 = .ok l) :
+    l = denote c parts a :=
+  globStrict_ok_eq_denote c hr parts (literalUnique_of_siblingUnique c hsu _) a k h l hok
+
+/-- without any assumption on sibling names: every node strict `glob` returns is denoted -/
+theorem globStrict_ok_subset_denote (c : Ctx α) (parts : List String) (a : Addr)
+    (k : Cache) (h : CacheInv k) (l : List Addr) (hok : (globM false c parts a k).1 = .ok l) :
+    ∀ x ∈ l, x ∈ denote c parts a := by
+  rw [(GlobL.globM_spec false c parts a k h).1] at hok
+  intro x hx
+  apply GlobL.globP_subset c parts a x
+  rw [hok]; exact hx
+
+set_option linter.unusedVariables false in
+theorem globStrict_raises_only_at_dead_end (c : Ctx α) (hr : c.relax = false) (parts : List String)
+    (a : Addr) (k : Cache) (h : CacheInv k) (e : RErr) (herr : (globM false c parts a k).1 = .error e) :
+    hasDeadEnd c parts a = true := by
+  rw [(GlobL.globM_spec false c parts a k h).1] at herr
+  exact GlobL.globP_strict_dead c parts a e herr
+
+/-! ## order and duplicates of the denoted list -/
+
+/-- a pattern without `**` and `..` -/
+def Plain (parts : List String) : Prop := ∀ p ∈ parts, p ≠ "**" ∧ p ≠ ".."
+
+/-- without `**` and `..` every denoted node lies below the start node, and the list is a sublist of
+the pre-order of the start node's subtree -/
+theorem denote_preorder (c : Ctx α) (parts : List String) (hp : Plain parts) (a : Addr)
+    (hv : (sub c.r a).isSome = true) :
+    List.Sublist (denote c parts a) ((Tree.addrs ((sub c.r a).getD c.r)).map (a ++ ·)) := by
+  cases hs : sub c.r a with
+  | none => rw [hs] at hv; cases hv
+  | some t => exact GlobL.denote_preorder c parts hp a t hs
+
+/-- no `..` at all: no duplicates (the general clause of the property — no `..` *after* a name,
+wildcard or `**` component — reduces to this after the leading `..`/`.`/`''` steps, which only move
+the single start node) -/
+theorem denote_nodup (c : Ctx α) (parts : List String) (hp : ∀ p ∈ parts, p ≠ "..") (a : Addr)
+    (_hv : (sub c.r a).isSome = true) : (denote c parts a).Nodup :=
+  GlobL.denote_nodup c parts hp a
+
+/-- leading `..`, `.` and `''` components just move the start node -/
+theorem denote_leading (c : Ctx α) (p : String) (rest : List String) (a : Addr)
+    (hp : p = ".." ∨ p = "." ∨ p = "") :
+    denote c (p :: rest) a = (if p = ".." then (if a = [] then [] else denote c rest a.dropLast) else denote c rest a) :=
+  GlobL.denote_leading c p rest a hp
+
 end Anytree.Props.C08
